@@ -4,17 +4,22 @@ PROP = {'id': 'C20',
                'Result.is_failed',
                'Result.is_canceled',
                'JobSubmitter._build_results',
-               'ResourceMonitorAggregator.update_resource_stats'],
- 'native': ['ResourceMonitorAggregator.update_resource_stats', 'ResourceMonitorAggregator.finalize', 'EventsSummary._consolidate_events'],
+               'ResourceMonitorAggregator.update_resource_stats',
+               'JobRunner._aggregate_events_v'],
+ 'native': ['JobRunner._aggregate_events_v', 'ResourceMonitorAggregator.update_resource_stats', 'ResourceMonitorAggregator.finalize', 'ResourceMonitorAggregator.finalize/process', 'EventsSummary._consolidate_events'],
  'lemmas': ['lemma_c20_running_stats', 'lemma_fold_schemas'],
- 'records': ['Result', 'ResourceMonitorAggregator', 'JobSubmitter'],
+ 'records': ['Result', 'ResourceMonitorAggregator', 'JobSubmitter', 'JobRunner'],
  'min_obligations': 150,
  'assumptions': ['floats are reals (rounding of sum and of sum/count ignored)',
                  'samples are non-negative and below sys.maxsize; the monitor reports a stable set of cells (assumed contract of _get_stats)',
                  'result rows are well-formed (status finished, or canceled with a non-zero code): established by the three row producers'],
- 'not_decided': ['ResourceMonitorAggregator.finalize (mean = sum / count and report layout): not under contract (heterogeneous nested dicts, pop, json) - '
+ 'not_decided': ['JobRunner._aggregate_events: proved - every line the node log had is kept in place, each existing job log is removed only after the copy loop, '
+                 'logs of other jobs untouched; the clause "each job log occurs as one contiguous block" is forall-exists-forall and undecided by z3/cvc5, so the '
+                 'exact content (old log + job logs in configuration order) is BOUNDED only (real files, 0-5 jobs); file semantics T-fs assumed (open modes, line iteration, write, remove)',
+                 'ResourceMonitorAggregator.finalize (mean = sum / count and report layout): not under contract (heterogeneous nested dicts, pop, json) - '
                  'BOUNDED only: the written report is compared with the true max / min / mean of 1-7 generated samples per cell; the per-process '
-                 'branch of update_resource_stats: not under contract',
+                 'branch of update_resource_stats and of finalize: not under contract, BOUNDED only (1-3 processes each sampled in a random subset of 1-6 rounds: '
+                 'samples, max, min and mean over the process\'s own samples)',
                  'ResultsSummary.show_results tallies (same classifier calls, PrettyTable output): not under contract',
                  'parquet encoding of resource-stat events; clock skew between nodes',
                  'event consolidation (EventsSummary._consolidate_events / _save_events_summary, StructuredLogEvent round trip): json / pandas / defaultdict, '
